@@ -10,6 +10,8 @@ import json
 from mirsym import smt as z3
 from mirsym.core import *
 from mirsym.summ_fs import ABSENT, FILE, DIR
+from mirsym.summ_core import Ok, Err, Some, NONE, VecV, ListIt
+from mirsym.summ_serde import TVal, TomlText
 from mirsym.run import Inconclusive
 from harness.layers import *
 from harness import C01
@@ -18,6 +20,11 @@ SHARDS = {"quick": 14, "thorough": 15}
 CRATES = C01.CRATES
 SHIM_OP = {"write-data": "write", "write": "open_w", "read": "open_r", "mkdir": "mkdir", "unlink": "unlink", "rmdir": "rmdir", "chmod": "chmod",
            "opendir": "opendir", "rmtree": "rmdir", "copy": "open_r", "rename": "rename"}
+
+
+PHASE_REQ = {"op": "runtime", "argv": [], "behaviour": {"launch": True, "store": "nonempty", "build_sboms": ["CycloneDxJson", "SpdxJson"], "launch_sboms": ["SyftJson"]},
+             "env": {"CNB_BUILDPACK_DIR": True, "CNB_TARGET_OS": True, "CNB_TARGET_ARCH": True, "CNB_TARGET_ARCH_VARIANT": False, "CNB_TARGET_DISTRO_NAME": True, "CNB_TARGET_DISTRO_VERSION": True},
+             "descriptor": {"present": True, "syntax_ok": True, "has_api": True, "api": "0.10", "rest_ok": True}, "platform_env": True, "olds": {"/L/store.toml": True}, "buildpack_plan_ok": True, "old_store_ok": True}
 
 
 def prepare(run):
@@ -34,11 +41,12 @@ def fault_spec(w):
 
 def main(run):
     rich = run.tier == "thorough"
-    run.bounds = {"operations": "struct-API cached/uncached request (C01 universe) and LayerRef::{write_metadata, write_sboms, write_exec_d_programs}",
+    run.bounds = {"operations": "struct-API cached/uncached request (C01 universe), LayerRef::{write_metadata, write_sboms, write_exec_d_programs}, and the phase entry point "
+                                "libcnb_runtime as detect (pass with a plan) and as build (launch.toml, store.toml, three SBOM files, existing store.toml read)",
                   "fault position": "every registered file-system call of the path (solver variable), one fault per run",
                   "errno": "any non-NotFound error (the code only distinguishes NotFound)"}
     run.assumptions = C01_ASSUME + ["metadata probes (exists/is_dir/is_file) are not fault positions: std maps their errors to `false`"]
-    run.outside = ["partial writes inside one write(2) call", "faults in trait-API handling and in the phase output writers (see C02/C05 notes)"]
+    run.outside = ["partial writes inside one write(2) call", "faults in trait-API handling"]
     P = run.program(CRATES)
     install_all(P)
     fns = {}
@@ -79,9 +87,71 @@ def main(run):
         out = wentry(ctx)
         return {"class": out["res"]}
 
+    # ---- phase outputs: libcnb_runtime as detect (pass + plan) and as build (launch, store, three SBOM files) with one injected fault
+    f_rt = [k for k, f in P.funcs.items() if f is not None and f.name == "libcnb_runtime"]
+    plat_from = P.impl_index.get(("GenericPlatform", "Platform", "from_path"))
+    if len(f_rt) != 1 or not plat_from:
+        raise Inconclusive("libcnb_runtime / GenericPlatform::from_path not found")
+    P.summaries["env::args"] = P.summaries["args"] = lambda c2, c: ListIt(list(c2.argv))
+    P.summaries["Platform::from_path"] = lambda c2, c: P.call(c2, plat_from, list(c.args), tyenv={})
+
+    def _phase_detect(c2, c):
+        c2.calls.append("detect")
+        plan = P.mk_struct("BuildPlan", provides=VecV([P.mk_struct("Provide", name="thing")]), requires=VecV([]), **{"or": VecV([])})
+        return Ok(Adt("DetectResult", None, [Adt("InnerDetectResult", "Pass", [Some(plan)])]))
+
+    def _phase_build(c2, c):
+        c2.calls.append("build")
+        launch = P.mk_struct("Launch", labels=VecV([]), processes=VecV([]), slices=VecV([]))
+        store = P.mk_struct("Store", metadata=Opaque("toml", TVal("store.metadata", kind="table", entries=[["k", True, TVal("k", kind="str", scalar="v")]], ident=z3.IntVal(9))))
+        sb = lambda f: P.mk_struct("Sbom", format=Adt("SbomFormat", f, []), data=VecV(["sbom-" + f]))
+        from harness.C05 import order_pass
+        return Ok(Adt("BuildResult", None, [Adt("InnerBuildResult", "Pass", order_pass(P, Some(launch), Some(store), VecV([sb("CycloneDxJson"), sb("SpdxJson")]), VecV([sb("SyftJson")])))]))
+
+    def _phase_on_error(c2, c):
+        c2.calls.append("on_error")
+        return UNIT
+    P.summaries["Buildpack::detect"], P.summaries["Buildpack::build"], P.summaries["Buildpack::on_error"] = _phase_detect, _phase_build, _phase_on_error
+
+    class _Desc:
+        def deserialize(self, c2, ty, tv):
+            return Ok(Opaque("descriptor", "bp"))
+
+        def missing(self, c2, md):
+            return Ok(Opaque("descriptor", "bp"))
+    P.type_hooks["ComponentBuildpackDescriptor"] = _Desc()
+
+    def world_phase(ctx):
+        from mirsym.summ_fs import World
+        w = World(ctx)
+        for d in ("/bp", "/platform", "/platform/env", "/PL", "/in", "/out", "/app"):
+            w.add(d, DIR)
+        w.add("/platform/env/FOO", FILE, content="bar")
+        w.cwd = "/app"
+        for v in ("CNB_TARGET_OS", "CNB_TARGET_ARCH", "CNB_TARGET_DISTRO_NAME", "CNB_TARGET_DISTRO_VERSION"):
+            w.env[v] = "v"
+        w.env["CNB_BUILDPACK_DIR"] = "/bp"
+        w.add("/bp/buildpack.toml", FILE, content=TomlText(True, TVal("bp", kind="table", entries=[["api", True, TVal("bp.api", kind="str", scalar="0.10")]])))
+        w.add("/in/plan.toml", FILE, content=TomlText(True, TVal("plan", kind="table", entries=[["entries", True, TVal("plan.entries", kind="array", elems=[])]])))
+        w.add("/PL/store.toml", FILE, content=TomlText(True, TVal("oldstore", kind="table", entries=[["metadata", True, TVal("oldstore.metadata", kind="table", entries=[], ident=z3.IntVal(3))]])))
+        return arm(ctx, w)
+
+    def entry_phase(ctx):
+        ctx.calls = []
+        ctx.phase = ["detect", "build"][ctx.choose([True, True], "phase")]
+        ctx.argv = ["detect", "/platform", "/out/plan.toml"] if ctx.phase == "detect" else ["build", "/PL", "/platform", "/in/plan.toml"]
+        try:
+            P.call(ctx, f_rt[0], [Ref(Box(Adt("TestBuildpack", None, [])))], tyenv={"B": "TestBuildpack"})
+        except Exit as e:
+            code = e.code
+        else:
+            code = "returned"
+        bad = code in (0, 100, "returned") or ctx.calls.count("on_error") > 1
+        return {"class": ("Ok" if bad else "Err") + f":exit={code}:calls={','.join(ctx.calls)}"}
+
     stats = {"faulted": 0, "unfaulted": 0, "positions": {}}
     pending = []
-    for label, entry, wf in (("request", entry_req, world_req), ("writer", entry_wr, world_wr)):
+    for label, entry, wf in (("request", entry_req, world_req), ("writer", entry_wr, world_wr), ("phase", entry_phase, world_phase)):
         res = run.explore(P, entry, lambda ctx: [], wf, max_paths=2000000, max_depth=60)
         run.log(f"{label}: {len(res)} paths")
         for ctx, (kind, out) in res:
@@ -95,23 +165,43 @@ def main(run):
             stats["faulted"] += 1
             spec, nm, path = fault_spec(w)
             stats["positions"][nm] = stats["positions"].get(nm, 0) + 1
-            want = C01.model_terms(ctx) + [z3.Int("k_n1_exec_d_p2"), z3.Int("fault_at")]
+            want = (C01.model_terms(ctx) if label != "phase" else []) + [z3.Int("k_n1_exec_d_p2"), z3.Int("fault_at")]
             run.obligation()
             ok = out["class"].startswith("Err")
             ans, m = run.check(ctx.pc + [z3.BoolVal(not ok)], "fault-is-reported", want=want)
             if ans == "sat":
                 pending.append((label, ctx, out, m, spec, "unreported"))
-            elif stats["faulted"] % (7 if run.tier == "quick" else 29) == 0:
+            elif label == "phase" or stats["faulted"] % (7 if run.tier == "quick" else 29) == 0:
                 ans, m = run.check(ctx.pc, "witness", want=want)
                 if ans == "sat":
                     pending.append((label, ctx, out, m, spec, None))
     run.extra["fault_stats"] = {"faulted": stats["faulted"], "unfaulted": stats["unfaulted"]}
     run.extra["fault_positions"] = stats["positions"]
     cands = [p for p in pending if p[5] is not None]
-    wit = [p for p in pending if p[5] is None]
-    # every fault replay is its own process (LD_PRELOAD injector): a bounded sample of witnesses, every candidate
-    pending = cands + wit[::max(1, len(wit) // (40 if run.tier == "quick" else 120))]
+    wit = [p for p in pending if p[5] is None and p[0] != "phase"]
+    wit_phase = [p for p in pending if p[5] is None and p[0] == "phase"]
+    # every fault replay is its own process (LD_PRELOAD injector): a bounded sample of witnesses, every candidate, every phase fault
+    pending = cands + wit[::max(1, len(wit) // (40 if run.tier == "quick" else 120))] + wit_phase
     for label, ctx, out, m, spec, sig in pending:
+        if label == "phase":
+            scn = dict(PHASE_REQ, argv=[a if a != "/PL" else "/L" for a in ctx.argv], behaviour="pass+plan" if ctx.phase == "detect" else PHASE_REQ["behaviour"], request="phase:" + ctx.phase, arm="child")
+            if ctx.phase == "build":
+                scn["argv"][3] = "/in/buildpack-plan.toml"
+            spec_real = spec.replace("/PL/", "/L/").replace("/in/plan.toml", "/in/buildpack-plan.toml")
+            real = run.replay.run_faulty(scn, spec_real)
+            if "panic" in real or "error" in real:
+                run.mismatch(f"faulty replay failed: {real} fault {spec_real}")
+                continue
+            real_err = real["exit"] not in (0, 100) and real["calls"].count("on_error") <= 1
+            run.stats["validated"] += 1
+            if sig is None:
+                if not real_err:
+                    run.mismatch(f"phase {ctx.phase}: fault {spec_real} predicted {out['class']} but the real process exited {real['exit']} with calls {real['calls']}")
+                else:
+                    run.sample({"operation": "phase:" + ctx.phase, "fault": spec_real, "exit": real["exit"]}, limit=10)
+            else:
+                run.candidate(f"phase:fault-not-reported:{spec.split(':')[0]}", f"{ctx.phase} with fault {spec_real} -> exit {real['exit']} calls {real['calls']}", {"scenario": scn, "fault": spec_real}, not real_err)
+            continue
         scn = C01.scenario_of(ctx, m) if label == "request" else C01.writer_scenario(ctx, m)
         if label == "writer":
             scn["arm"] = "writer"            # the injector counts calls from the writer on, as the symbolic path does
@@ -154,5 +244,5 @@ def finalize(run):
 def replay(run, scen):
     s = scen["scenario"]
     real = run.replay.run_faulty(s["scenario"], s["fault"])
-    print(json.dumps({"result": real.get("result"), "writers": real.get("writers")}))
+    print(json.dumps({"result": real.get("result"), "writers": real.get("writers"), "exit": real.get("exit"), "calls": real.get("calls")}))
     return 0
